@@ -129,6 +129,17 @@ def rule_remove_identity_scope(ctx: Ctx) -> None:
     ci = repo.cls("CircuitDAG", DAG)
     labels = {c_.value for x in ast.walk(fn) if isinstance(x, ast.Subscript) and norm(x.value) == "self.node_dict" for c_ in [x.slice] if isinstance(c_, ast.Constant)}
     labels |= {c.args[0].value for c in calls_in(fn) if call_name(c) == "self.node_dict.get" and c.args and isinstance(c.args[0], ast.Constant)}
+    # every node of the label list is looked at: an identity that must stay (it carries noise) is skipped, it does not end the walk
+    for lp in [x for x in ast.walk(fn) if isinstance(x, ast.For) and any(call_name(c) == "self.remove_op" for c in calls_in(x))]:
+        stops = [b for b in ast.walk(lp) if isinstance(b, (ast.Break, ast.Return))]
+        if stops:
+            g = parent(stops[0])
+            ctx.fail("identity.scope", m, stops[0],
+                     f"remove_identity leaves its loop over the identity nodes ({'break' if isinstance(stops[0], ast.Break) else 'return'}"
+                     + (f" under `{short(g.test, 60)}`" if isinstance(g, ast.If) else "") + "): every noise-free Identity indexed after that node stays in the circuit "
+                     "and in node_dict['Identity'], so the wire still visits operations the edit was meant to remove", func="CircuitDAG.remove_identity",
+                     construct="remove_identity: walk ends at the first identity that is kept")
+            return
     for c in calls_in(fn):
         if call_attr(c) in ("get_node_by_labels",) and c.args and isinstance(c.args[0], (ast.List, ast.Tuple)):
             labels |= {e.value for e in c.args[0].elts if isinstance(e, ast.Constant)}
@@ -468,6 +479,19 @@ def rule_noise_preserved(ctx: Ctx) -> None:
                 if isinstance(p_, _ast.If) and "noise" in _norm(p_.test) and "NoNoise" in _norm(p_.test):
                     return True
                 p_ = _parent(p_)
+            # guard-clause form: an earlier statement of the same block leaves the iteration when the noise is not NoNoise
+            st_ = c
+            while _parent(st_) is not None and not isinstance(st_, _ast.stmt):
+                st_ = _parent(st_)
+            blk_ = _parent(st_)
+            for field in ("body", "orelse"):
+                seq = getattr(blk_, field, None)
+                if isinstance(seq, list) and st_ in seq:
+                    for prev in seq[:seq.index(st_)]:
+                        if isinstance(prev, _ast.If) and "noise" in _norm(prev.test) and "NoNoise" in _norm(prev.test) and not prev.orelse \
+                                and prev.body and isinstance(prev.body[-1], (_ast.Continue, _ast.Break, _ast.Return)) \
+                                and isinstance(prev.test, _ast.UnaryOp) and isinstance(prev.test.op, _ast.Not):
+                            return True
             return False
         if carried or all(guarded(c) for c in removes):
             ctx.ok("effect.noise-preserved", m, removes[0], what=f"{q}: noise of the deleted operations is " + ("carried into the replacement" if carried else "known to be NoNoise"))
@@ -620,6 +644,7 @@ def rule_unwrap_source(ctx: Ctx) -> None:
 
 
 KNOCKOUTS = [
+    Knockout("remove-identity-stops-at-first-noisy-identity", DAG, sub_once('                if isinstance(self.dag.nodes[node]["op"].noise, NoNoise):\n                    self.remove_op(node)\n', '                if not isinstance(self.dag.nodes[node]["op"].noise, NoNoise):\n                    break\n                self.remove_op(node)\n'), "identity.scope", "leaves its loop"),
     Knockout("two-qubit-base-labelled-one-qubit", "graphiq/circuit/ops.py", sub_nth('        self.add_labels("two-qubit")', '        self.add_labels("one-qubit")', 0), "group.label-classes", "is not a OneQubitOperationBase"),
     Knockout("remove-identity-strips-theta-zero-rotations", "graphiq/circuit/circuit_dag.py", sub_once('                if isinstance(self.dag.nodes[node]["op"].noise, NoNoise):\n                    self.remove_op(node)\n', '                if isinstance(self.dag.nodes[node]["op"].noise, NoNoise):\n                    self.remove_op(node)\n        for node in self.get_node_by_labels(["one-qubit"]):\n            op = self.dag.nodes[node]["op"]\n            if isinstance(op, ops.ParameterizedOneQubitRotation) and op.params[0] == 0 and isinstance(op.noise, NoNoise):\n                self.remove_op(node)\n'), "identity.scope", "phase gate"),
     Knockout("copy-rederives-op-params", "graphiq/circuit/circuit_base.py", sub_once("        return copy.deepcopy(self)\n", "        new_circuit = copy.deepcopy(self)\n        for op in new_circuit.sequence():\n            op.params = new_circuit._parameters.get(new_circuit._map.get(id(op)), tuple())\n        return new_circuit\n"), "copy.faithful", "operations of the copy"),
